@@ -1232,6 +1232,14 @@ class Interp:
             raise Unsupported('yield (generator body)')
         return self.spec.on_yield(self, v)
 
+    def e_YieldFrom(self, n):
+        # delegation to a sub-generator: the sub-generator is under its own contract; the spec's hook receives what the call
+        # expression evaluates to (through the callee's summary) and returns the value of the `yield from` expression
+        hook = getattr(self.spec, 'on_yield_from', None)
+        if hook is None:
+            raise Unsupported('yield from (generator body)')
+        return hook(self, self.eval(n.value))
+
     # comprehensions --------------------------------------------------------
     def comp_items(self, n):
         """evaluate a comprehension with concrete iteration; returns list of element values"""
